@@ -73,10 +73,9 @@ func c10ErrClass(err error) string {
 		return "err:no-text"
 	case strings.Contains(m, "Unable to find ELF .gopclntab section"):
 		return "err:no-pclntab"
-	case strings.Contains(m, "bad magic number"), strings.Contains(m, "invalid argument"), strings.Contains(m, "EOF"):
-		return "err:elf"
 	}
-	return "err:other:" + vh.Class(m)
+	// anything else comes out of debug/elf / debug/gosym / os while reading the file (bad magic, EOF, …): one class
+	return "err:read"
 }
 
 // c10PrintName is runtime.funcNameForPrint (traceback.go): the runtime reports generic instances with their type
